@@ -4,7 +4,7 @@
     name come from one build (same source and fingerprint) and are numbered 0..m-1.  The empty index is
     well-formed and every run of the command (either mode, either sub-command, failing or not) keeps it so
     ([C34_wf_on_every_history]); so the convergence theorem applies to every state reachable by the tool. *)
-From ZV Require Import Lib.Base Model.LocalSync Proofs.LocalSync Proofs.LocalSyncConv Proofs.LocalSyncMore.
+From ZV Require Import Lib.Base Model.LocalSync Proofs.LocalSync Proofs.LocalSyncConv Proofs.LocalSyncMore Proofs.LocalSyncPartial.
 From Coq Require Import Permutation.
 
 (** If discovery fails — two discovered repositories would get the same name (E_DUP_NAME), one repository is
@@ -80,6 +80,21 @@ Theorem C34_exactly_one_repository_per_spec : forall tree w roots inv,
     (forall sh, In sh inv' -> In (fst (sh_file sh)) (map sp_name specs) /\ sh_repo sh = fst (sh_file sh)).
 Proof. exact sync_force_exactly_one. Qed.
 Print Assumptions C34_exactly_one_repository_per_spec.
+
+(** Partial failure: whatever the final status, once discovery and the inventory succeed, sync -f leaves a
+    well-formed index in which every shard belongs to a discovered repository (nothing foreign survives) and every
+    discovered repository that can be indexed has its first shard and only up-to-date shards — also when
+    IndexGitRepo failed for other repositories (status E_INDEX). *)
+Theorem C34_converges_despite_index_failures : forall tree w roots inv specs,
+  wf inv -> discover tree roots = Ok specs -> existsb sh_bad inv = false ->
+  let inv' := apply_ops inv (r_ops (run_sync Force tree w roots inv)) in
+  wf inv' /\
+  (forall sh, In sh inv' -> exists s, In s specs /\ sh_repo sh = sp_name s /\
+       normalize_source (sh_source sh) = normalize_source (sp_source s) /\ sh_bad sh = false) /\
+  (forall s fp, In s specs -> fp_of w (sp_source s) = Some fp ->
+       has_file (sp_name s, 0) inv' = true /\ forall sh, In sh inv' -> sh_repo sh = sp_name s -> sh_fp sh = fp).
+Proof. exact sync_force_partial. Qed.
+Print Assumptions C34_converges_despite_index_failures.
 
 (** All histories: starting from the empty index, any sequence of sync / remove runs (preview or forced,
     succeeding or failing, over arbitrary worlds) leaves a well-formed index, so [C34_converges] applies. *)
